@@ -81,12 +81,19 @@ component functions, the customary Skein output sizes, `(stale buffer, bitlen=0)
 polynomial in wider registers, long rewinds, operator results as new vectors, equal couples, and MD6 in its default and
 sequential configurations inside C10.  After wave 8 the checks caught every change kept so far.  Wave 9 (a last, small
 held-out wave written when the checks had long been frozen at commit 000ebea; authors given the property text only and a
-ten-minute budget): first run %d/%d caught, so nothing had to be strengthened.  What the ten changes were: state cached at class
-level under too small a key (Skein initial state without the nonce, RC4 permutation handed out uncopied, a counter's parsed start
-value surviving `setup()`), a mutable default argument poisoning later `exactsum` queries, a reset skipped after a refused TLSH
-input, and numeric edges inside one call (SHA padding at 447 mod 512 bits, Keccak rates below a byte with two or more blocks,
-`-Bits(0,w)` unmasked, `short - long` vectors, an empty final piece after aligned updates).  %d of the %d kept changes are caught
-at the final state.
+ten-minute budget; the second half of the authors were told to stay away from class-level caches, mutable defaults and skipped
+resets): first run %d/%d caught.  What the twenty changes were: state cached at class level under too small a key (Skein initial
+state without the nonce, RC4 permutation handed out uncopied, a counter's parsed start value surviving `setup()`, a carry leaking
+into the CTR nonce when the counter half wraps), a mutable default argument poisoning later `exactsum` queries, a reset skipped
+after a refused TLSH input, and numeric edges inside one call (SHA padding at 447 mod 512 bits -- chosen independently by two
+authors --, Keccak rates below a byte with two or more blocks, `-Bits(0,w)` unmasked, `short - long` vectors, an empty final piece
+after aligned updates, zero words in big-endian `unpack`, TDEA with K2 == K3, `rol`/`ror` on 24-bit words, HMAC keys ending in NUL
+bytes, the empty string under a generic CRC with a final XOR, white-box DES under a weak key, BLAKE with `(buffer, bitlen=0)`).
+The one miss: MD6's 80-round minimum for keyed hashing decided by `any(key)` instead of by the key's length -- wrong only for a
+non-empty all-zero key at d < 160 with default rounds; C17 drew every key at random.  Answered by a workload class, not the site:
+keys whose bytes follow a pattern (all zero, all ones, a single bit) at default and fixed round counts; C17's quick (seeds 0, 1) and
+thorough (seed 0) tiers were re-run on the unchanged tree afterwards and held.  %d of the %d kept changes are caught at the final
+state.
 ''' % (len(rows), '\n'.join(rows), W['w3'][0], W['w3'][1], W['w4'][0], W['w4'][1], W['w5'][0] , W['w5'][1] - 1, W['w6'][0], W['w6'][1] - 1, W['w7'][0], W['w7'][1], W['w8'][0] - 1, W['w8'][1] - 1, W['w9'][0], W['w9'][1], sum(1 for r in rows if '**none**' not in r), len(rows))
 p = os.path.join(HERE, 'DESIGN.md')
 s = open(p).read()
